@@ -46,6 +46,10 @@ LEVEL_TEXT += (
     "the ARPACK start vector is generic (a seeded draw, not a constant "
     "vector); the M= operand of eigs / eigsh is covered by the "
     "canonicaliser rule.")
+LEVEL_TEXT += (
+    " Added in the fourth hunting round (DESIGN.md 9.6): "
+    "no consumer of the memoised Jacobian table of MappingIsoparametric "
+    "returns a bare entry of it.")
 LEVEL_NOTE = (
     "Assumes third-party calls (numpy/scipy) have no effects other than "
     "those in the enumerated tables (out=, ufunc.at, put/place/copyto, "
